@@ -13,6 +13,9 @@ static void images(const Case &c, Bytes &oldimg, Bytes &newpart) {
     vp::Rng rng(c.seed ^ vp::fnv(ser(c.cfg)) ^ (c.off * 131 + c.len));
     oldimg.resize(c.cfg.size); for (auto &b : oldimg) b = rng.byte();
     newpart.resize(c.op == 0 ? c.cfg.size : c.len); for (auto &b : newpart) b = rng.byte();
+    // every third seed: records that end in padding (zeros, or ff) - the tail then adds little or nothing to a running checksum
+    if (c.seed % 3 == 2) { uint8_t pad = (c.seed % 2) ? 0x00 : 0xff; for (size_t i = c.cfg.size / 2; i < oldimg.size(); i++) oldimg[i] = pad; for (size_t i = newpart.size() / 2; i < newpart.size(); i++) newpart[i] = pad; }
+    if (c.seed % 3 == 1) { for (size_t i = c.cfg.size / 3; i < oldimg.size(); i++) oldimg[i] = 0; }
 }
 
 // establish a valid previous image directly on the medium (reference checksum, native order)
@@ -159,7 +162,7 @@ static void run() {
     auto &a = vp::args();
     vp::CaseScope scope([] { return serc(g_cur); });
     size_t maxsize = a.thorough() ? 32 : 16;
-    vp::stats().rule = vp::fmt("fault enumeration: data size 1..%zu x placement {0,5} x 3 checksums x aux {none,0,1,2,size-1,size+1} ; per configuration every crash point (total octets the medium accepts before "
+    vp::stats().rule = vp::fmt("fault enumeration (images: random, zero from the first third on, or padded with 00/ff from the middle on): data size 1..%zu x placement {0,5} x 3 checksums x aux {none,0,1,2,size-1,size+1} ; per configuration every crash point (total octets the medium accepts before "
                                "the cut, i.e. every whole-write prefix and every torn position) of the full store and of partial stores, followed by validate+fetch on a fresh instance; and a single "
                                "failing / short (n-1, 1, n-2^16, n-2^8) medium call at every call index (sampled for operations with more than 64 medium calls); of store, store_part, validate, fetch, fetch_part, reset, on an instance that validated the previous image before and validates again afterwards; plus data sizes 255..257, 65535..65537, 70000 with sampled crash points", maxsize);
     vp::stats().exhaustive = true;
@@ -171,7 +174,7 @@ static void run() {
                 for (long aux : auxes) {
                     if (aux < -1) continue;
                     if (idx++ % a.nshards != a.shard) continue;
-                    run_config({size, place, cs, aux, (int)(idx & 1)}, a.seed, a.thorough());
+                    run_config({size, place, cs, aux, (int)(idx & 1)}, a.seed * 3 + idx % 3, a.thorough());
                     if (vp::too_many_failures()) return;
                 }
             }
@@ -182,7 +185,7 @@ static void run() {
                 if (aux > (long)size + 1) continue;
                 if (idx++ % a.nshards != a.shard) continue;
                 if (!a.thorough() && size > 300 && aux < 256) continue;   // octet-wise medium access on 64 KiB images: thorough tier only
-                run_config({size, 0, cs, aux, 0}, a.seed, false);
+                run_config({size, 0, cs, aux, 0}, a.seed * 3 + idx % 3, false);
                 vp::cls("large-image-config");
                 if (vp::too_many_failures()) return;
             }
